@@ -371,14 +371,19 @@ NamesLemma == { S(<<97>>), S(<<97, 47, 98>>), S(<<97, 98>>), S(<<255>>),
                 Rep(97, NameMask - 1), Rep(97, NameMask), Rep(97, NameMask + 1), Rep(97, NameMask + 2),
                 RCat(Rep(97, NameMask), S(<<47, 98>>)), DE(126), DE(127), DE(128), S(<<100, 47, 102>>) }
 LemmaExts == <<Ext(Sig(90, 90, 90, 90), S(<<1, 0, 255>>)), Ext(TREE, <<>>)>>
-CasesLemmaOf(SK, XS) ==
-    { Case(v, sk, X, xs) : v \in {2, 3, 4}, sk \in SK, X \in KeySets(NamesLemma, MaxKeys), xs \in XS }
+CasesLemmaOf(Names, SK, XS) ==
+    { Case(v, sk, X, xs) : v \in {2, 3, 4}, sk \in SK, X \in KeySets(Names, MaxKeys), xs \in XS }
     \cup { Case(v, FALSE, { [BaseEntry(n, st) EXCEPT !.valid = va, !.skip = sw, !.ita = it, !.dev = <<1, 0, 5>>,
                                                      !.ct = [k |-> "float", s |-> <<1, 2>>, ns |-> <<0, 0>>, q |-> 3]] }, <<>>) :
              v \in {2, 3, 4}, n \in { S(<<97>>), Rep(97, NameMask), Rep(97, NameMask + 1) }, st \in 0..3,
              va \in BOOLEAN, sw \in BOOLEAN, it \in BOOLEAN }
-CasesLemma  == CasesLemmaOf(BOOLEAN, { <<>>, LemmaExts })
-CasesLemmaQ == CasesLemmaOf({FALSE}, { LemmaExts })      \* quick tier: checksummed files with extensions
+CasesLemma  == CasesLemmaOf(NamesLemma, BOOLEAN, { <<>>, LemmaExts })
+\* quick tier: checksummed files with extensions, ten names
+CasesLemmaQ == CasesLemmaOf(NamesLemma \ { S(<<97, 98>>), DE(126), Rep(97, NameMask + 2) }, {FALSE}, { LemmaExts })
+
+\* the cases on which the two historical defects of dulwich show (negative controls)
+CasesNeg == { Case(v, FALSE, X, <<>>) : v \in {2, 3, 4},
+              X \in KeySets({ DE(127), DE(128), S(<<100, 47, 102>>), Rep(97, NameMask), Rep(97, NameMask + 1) }, 2) }
 
 Cases == CASE Family = "names"  -> CasesNames(NamesAll)
            [] Family = "namesq" -> CasesNames(NamesQuick)
@@ -388,6 +393,8 @@ Cases == CASE Family = "names"  -> CasesNames(NamesAll)
            [] Family = "exts"   -> CasesExts
            [] Family = "lemma"  -> CasesLemma
            [] Family = "lemmaq" -> CasesLemmaQ
+           [] Family = "neg"    -> CasesNeg
+           [] Family = "quick"  -> CasesNames(NamesQuick) \cup CasesFlagsLegal \cup CasesStat \cup CasesExts
 
 \* ------------------------------------------------------------------ the enumeration as a state machine
 VARIABLES c,        \* the case
@@ -442,5 +449,6 @@ ChecksumInv ==
     Done => LET body == Expand(Runs(out.fields)) IN
             IF c.skip THEN Accepts(body, <<"zeros">>)
             ELSE /\ Accepts(body, <<"H", body>>)
-                 /\ \A i \in 1..Len(body) : ~Accepts(Damage(body, i), <<"H", body>>)
+                 /\ \A i \in {1, 8, 12, 13, 73, Len(body) \div 2, Len(body) - 1, Len(body)} :
+                        i \in 1..Len(body) => ~Accepts(Damage(body, i), <<"H", body>>)
 =============================================================================
